@@ -413,6 +413,9 @@ def run(chk, F):
     rule_r2(chk, F, c, cg)
     rule_r3(chk, F, cg)
     rule_r4(chk, F)
+    # clause (d): address-keyed tables re-hash before use after a collection — same engine as C09.R4
+    from rules import c09
+    c09.rule_r4(chk, c, cg, rid="C03.R5")
     chk.assumptions += [
         "decides root-source completeness, rooting discipline of mutator-context native code, barrier parity and "
         "shared layout constants; the copying/marking algorithms themselves and OOM behaviour are not decided",
